@@ -62,10 +62,29 @@ Example C16_stop_terminates_nonvacuous :
   is_stw (pc (th (run_stream cfg_fixed rr3 60 (run cfg_fixed live_sched (init_all live_progs))) 0)) = false.
 Proof. split; [exact rr3_fair | exact live_example]. Qed.
 
+(* With thread creation under the heap guard the set of registered threads cannot change during a section, and the
+   same variant works for scripts that spawn: for every number of threads, EVERY script, every world reachable from
+   the real initial world (only the main thread started) in which thread h is inside a stop-the-world section, and
+   every fair schedule, the section ends. *)
+Theorem C16_stop_terminates_spawning : forall progs sched h f,
+  let w := run cfg_fixed sched (init progs) in
+  is_stw (pc (th w h)) = true ->
+  fair (length progs) f ->
+  exists k, is_stw (pc (th (run_stream cfg_fixed f k w) h)) = false.
+Proof. exact stop_terminates_init. Qed.
+
+Example C16_stop_terminates_spawning_nonvacuous :
+  fair 3 rr3 /\
+  (let w := run cfg_fixed spawning_sched (init spawning_progs) in
+   pc (th w 0) = Stw SStopLock /\ reg (th w 1) = true /\ pc (th w 2) = NotStarted /\
+   is_stw (pc (th (run_stream cfg_fixed rr3 75 w) 0)) = false /\
+   (let w' := run_stream cfg_fixed rr3 120 w in pc (th w' 0) = Done /\ pc (th w' 1) = Done /\ pc (th w' 2) = Done)).
+Proof. split; [exact rr3_fair | exact spawning_example]. Qed.
+
 (* The spawn-free hypothesis was needed for the tree before 56291059 (spawn_locked = false): a thread registered
    after stop_threads has passed is never flagged, and the stopper stays blocked for as long as that thread runs
    without entering a safepoint.  On the current tree no registration falls inside a section
-   (C15_no_unregistered_runner_during_section); C16_stop_terminates itself is still stated for spawn-free scripts. *)
+   (C15_no_unregistered_runner_during_section) and C16_stop_terminates_spawning needs no such hypothesis. *)
 Theorem C16_stop_delayed_by_late_registration :
   let w := run cfg_pre_spawn_fix late_sched (init late_progs) in
   pc (th w 2) = Stw (SWait 1 1) /\ reg (th w 1) = true /\ paused (th w 1) = false /\
